@@ -5,6 +5,7 @@
 //@target src/pc_writer.rs
 //@check accept_reject_bounds_roundtrip serves=C14,C10,C01 fn=PointCloudWriter::{add_point,write_buffer_to_disk,finalize} note="BOUNDED: prototype X,Y,Z (f64) + Intensity Integer 0..=100 + ColorRed Integer -5..=1000; 3 deterministic point streams of 0, 7 and 3000 points (several packets) with every 3rd/5th point invalid in a LATER attribute (out of range above / below, wrong variant); bounds, record count and raw read-back compared"
 //@check roundtrip_any_section_alignment serves=C01,C02,C10 fn=PointCloudWriter::{new,write_buffer_to_disk,finalize} note="BOUNDED: a blob of every 4-aligned payload length 0..2100 in front of the point cloud (moves section header, packet header, stream-size table and stream data across page boundaries), 40 points, raw read-back and CRC validation compared"
+//@check wide_integers_and_all_bounds serves=C14,C12,C01,C10 fn=PointCloudWriter::add_point,BitPack::unpack_ints,BitPack::unpack_scaled_ints,integer_bits,serialize_integer note="BOUNDED: spherical coordinates (f64) + row / column / return index records with ranges 0..=i64::MAX, i64::MIN..=i64::MAX, -10..=i64::MAX + a ScaledInteger intensity over -2^62..=2^62; 9 points with values at both ends of every range, 2^53+1 and neighbours; spherical and index bounds exact over the points; raw read-back exact"
 //@module
     use crate::{E57Reader, E57Writer, RecordDataType, RecordName, RecordValue};
     use std::io::Cursor;
@@ -122,5 +123,62 @@
             assert_eq!(pc.records, 40, "{what}");
             let raw: Vec<Vec<RecordValue>> = r.pointcloud_raw(&pc).expect(&what).map(|p| p.expect(&what)).collect();
             assert!(raw == written, "raw read-back differs: {what}");
+        }
+    }
+
+    #[test]
+    fn wide_integers_and_all_bounds() {
+        let what = "wide integers";
+        let proto = vec![
+            Record { name: RecordName::SphericalRange, data_type: RecordDataType::F64 },
+            Record { name: RecordName::SphericalAzimuth, data_type: RecordDataType::F64 },
+            Record { name: RecordName::SphericalElevation, data_type: RecordDataType::F64 },
+            Record { name: RecordName::RowIndex, data_type: RecordDataType::Integer { min: 0, max: i64::MAX } },
+            Record { name: RecordName::ColumnIndex, data_type: RecordDataType::Integer { min: i64::MIN, max: i64::MAX } },
+            Record { name: RecordName::ReturnIndex, data_type: RecordDataType::Integer { min: -10, max: i64::MAX } },
+            Record { name: RecordName::Intensity, data_type: RecordDataType::ScaledInteger { min: -(1i64 << 62), max: 1i64 << 62, scale: 0.5, offset: 1.0 } },
+            Record { name: RecordName::ReturnCount, data_type: RecordDataType::Integer { min: 0, max: 255 } },
+        ];
+        let big = (1i64 << 53) + 1;
+        let rows = [big, 5, big - 2, 77, 0, 9, big - 1, 1000, 3]; // maximum 2^53+1: not representable as f64
+        let cols = [0i64, -big, big - 3, -1, 1, 12, -(big - 2), 7, big - 5]; // minimum -(2^53+1); range i64::MIN..=i64::MAX: offsets >= 2^63
+        let rets = [-10i64, i64::MAX - 1, 0, big, -9, 3, i64::MAX - 3, 4, 5]; // maximum i64::MAX-1: an f64 round trip saturates to i64::MAX
+        let ints = [-(1i64 << 62), 1i64 << 62, 0, big, -big, 1, -1, (1i64 << 62) - 1, -(1i64 << 62) + 1];
+        let mut written: Vec<Vec<RecordValue>> = Vec::new();
+        let mut file = Cursor::new(Vec::new());
+        {
+            let mut w = E57Writer::new(&mut file, "guid-file").expect(what);
+            let mut pcw = w.add_pointcloud("guid-pc", proto).expect(what);
+            for i in 0..9usize {
+                let p = vec![
+                    RecordValue::Double(10.0 + i as f64 * 3.5),
+                    RecordValue::Double(-1.0 + i as f64 * 0.25),
+                    RecordValue::Double(0.5 - i as f64 * 0.125),
+                    RecordValue::Integer(rows[i]),
+                    RecordValue::Integer(cols[i]),
+                    RecordValue::Integer(rets[i]),
+                    RecordValue::ScaledInteger(ints[i]),
+                    RecordValue::Integer(200 + i as i64),
+                ];
+                pcw.add_point(p.clone()).expect(what);
+                written.push(p);
+            }
+            pcw.finalize().expect(what);
+            w.finalize().expect(what);
+        }
+        let mut r = E57Reader::new(Cursor::new(file.into_inner())).expect(what);
+        let pc = r.pointclouds()[0].clone();
+        let ib = pc.index_bounds.clone().expect(what);
+        assert_eq!((ib.row_min, ib.row_max), (rows.iter().min().copied(), rows.iter().max().copied()), "row bounds exact");
+        assert_eq!((ib.column_min, ib.column_max), (cols.iter().min().copied(), cols.iter().max().copied()), "column bounds exact");
+        assert_eq!((ib.return_min, ib.return_max), (rets.iter().min().copied(), rets.iter().max().copied()), "return bounds exact");
+        let sb = pc.spherical_bounds.clone().expect(what);
+        assert_eq!((sb.range_min, sb.range_max), (Some(10.0), Some(10.0 + 8.0 * 3.5)), "range bounds exact");
+        assert_eq!((sb.azimuth_start, sb.azimuth_end), (Some(-1.0), Some(-1.0 + 8.0 * 0.25)), "azimuth bounds exact");
+        assert_eq!((sb.elevation_min, sb.elevation_max), (Some(0.5 - 8.0 * 0.125), Some(0.5)), "elevation bounds exact");
+        let raw: Vec<Vec<RecordValue>> = r.pointcloud_raw(&pc).expect(what).map(|p| p.expect(what)).collect();
+        assert_eq!(raw.len(), 9);
+        for (i, (a, b)) in raw.iter().zip(written.iter()).enumerate() {
+            assert!(a == b, "raw point {i}: read {a:?}, written {b:?}");
         }
     }
